@@ -4,6 +4,7 @@ import os
 import re
 import subprocess
 from . import core
+from . import tagres
 from .core import Case
 
 NAME = "proto"
@@ -183,7 +184,9 @@ def run_trace_judge(prop, cases, impl):
     jcases = []
     for c, ir in zip(cases, impl):
         lines = []
-        for i, op in enumerate(c.lines[1:]):
+        # symbolic routing tags are resolved the way the harness resolved them (from the
+        # implementation's own queries) before the Spec reads the history
+        for i, op in enumerate(tagres.resolve_ops(c.lines[1:], ir)):
             lines.append(op)
             lines.append("=> " + (ir[i] if i < len(ir) else ("fault (no record)" if i == len(ir) else "")))
         jc = Case(c.name, lines)
@@ -467,12 +470,54 @@ def client_script(rng, cid, cfg, mods):
     return ev
 
 
+def sym_tag(cid, k, literal):
+    """the routing tag of the k-th announced instance of client cid, as the program under test
+    forms it (resolved by the harness / driver from that program's own queries, vlib/tagres.py);
+    `literal` (the tag as this code base forms it) when that instance has sent no query"""
+    if k < 1 or not -2147483648 <= cid <= 2147483647:
+        return literal
+    return "@T%d#%d|%s@" % (cid, k, literal)
+
+
+def literal_tags(ops):
+    """the ops with every symbolic routing tag replaced by its literal fallback"""
+    out = []
+    for l in ops:
+        f = l.split(" ")
+        if f[0] == "in" and len(f) >= 2 and "4054" in f[1]:
+            f[1] = hx(tagres.PH.sub(lambda m: m.group(3), unhx(f[1])))
+            l = " ".join(f)
+        out.append(l)
+    return out
+
+
+def _ordinals(ops):
+    """serial -> (cid, ordinal of that instance among the announcements of cid), from the input alone"""
+    serial, ordn, out = 0, {}, {}
+    for op in ops:
+        f = op.split(" ")
+        if f[0] != "in" or len(f) < 2:
+            continue
+        for raw in unhx(f[1]).split(b"\n"):
+            toks = raw.split()
+            if len(toks) >= 6 and toks[1][:1] == b"C" and not any(t.startswith(b":") for t in toks[2:5]):
+                try:
+                    cid = int(toks[0])
+                except ValueError:
+                    continue
+                serial += 1
+                ordn[cid] = ordn.get(cid, 0) + 1
+                out[serial] = (cid, ordn[cid])
+    return out
+
+
 def render_schedule(rng, scripts, chunks=False):
     """interleave scripts preserving per-client order; returns op lines"""
     ops = []
     serial = 0
     cur = {}       # cid -> current serial
     prev = {}      # cid -> previous serial
+    ordn = {}      # cid -> how many instances of it have been announced
     idx = {cid: 0 for cid in scripts}
     live = [cid for cid in scripts if scripts[cid]]
     while live:
@@ -485,6 +530,7 @@ def render_schedule(rng, scripts, chunks=False):
             serial += 1
             prev[cid] = cur.get(cid, 0)
             cur[cid] = serial
+            ordn[cid] = ordn.get(cid, 0) + 1
             ops.append(inl("%d C %s %s 0::1 6667" % (cid, e[1], e[2])))
         elif e[0] == "line":
             ops.append(inl("%d %s" % (cid, e[1])))
@@ -495,9 +541,9 @@ def render_schedule(rng, scripts, chunks=False):
             s = cur.get(cid, 0)
             idh = "%x" % (cid & 0xffffffff)
             if tagmode == "cur":
-                tag = "%s_%x" % (idh, s)
+                tag = sym_tag(cid, ordn.get(cid, 0), "%s_%x" % (idh, s))
             elif tagmode == "stale":
-                tag = "%s_%x" % (idh, prev.get(cid, 0))
+                tag = sym_tag(cid, ordn.get(cid, 0) - 1, "%s_%x" % (idh, prev.get(cid, 0)))
             elif tagmode == "plus1":
                 tag = "%s_%x" % (idh, s + 1)
             elif tagmode == "wrap":
@@ -588,6 +634,7 @@ def search_cases(prop, finding, seed):
     out = []
     k = 0
     serials = _track_serials(tail)
+    ords = _ordinals(tail)
 
     def add(lines):
         nonlocal k
@@ -604,7 +651,7 @@ def search_cases(prop, finding, seed):
         if cur:
             for svc, _t in cfg.services:
                 for rep in ("OK", "OK acct", "NO x", "AGAIN x", "MORE x"):
-                    line = inl("-1 X %s %x_%x :%s" % (svc, cid & 0xffffffff, cur, rep))
+                    line = inl("-1 X %s %s :%s" % (svc, sym_tag(cid, ords.get(cur, (cid, 0))[1], "%x_%x" % (cid & 0xffffffff, cur)), rep))
                     add(tail + [line])
                     add(tail + [line, inl("%d H" % cid)])
                     for pos in range(len(tail) + 1):
@@ -660,6 +707,7 @@ def _track_serials(ops):
 def stray_replies(rng, ops, p, cfg):
     """reply lines that are stray at position p by construction"""
     cur, stale, serial = _track_serials(ops)[p]
+    ords = _ordinals(ops)
     names = [s[0] for s in cfg.services] or ["login.srv"]
     texts = ["OK", "OK acct", "NO go away", "AGAIN later", "MORE chal", "junk"]
     out = []
@@ -669,8 +717,10 @@ def stray_replies(rng, ops, p, cfg):
         idh = "%x" % (cid & 0xffffffff)
         kind = rng.choice(["X", "X", "X", "x"])
         r = rng.random()
-        if r < 0.2 and stale.get(cid):
-            tag, svc = "%s_%x" % (idh, rng.choice(stale[cid])), rng.choice(names)
+        if r < 0.25 and stale.get(cid):
+            # a reply to a query of an earlier instance of this id, whatever its tag looked like
+            st = rng.choice(stale[cid])
+            tag, svc = sym_tag(cid, ords.get(st, (cid, 0))[1], "%s_%x" % (idh, st)), rng.choice(names)
         elif r < 0.35:
             tag, svc = "%s_%x" % (idh, serial + rng.randint(1, 9)), rng.choice(names)
         elif r < 0.5:
@@ -732,6 +782,49 @@ def class_scenario(rng, name):
         scripts[cid] = ev
     ops = header("class", cfg) + render_schedule(rng, scripts) + [inl("-1 ? :stats"), "eof"]
     return Case(name, ops, tags={"mods": "class"})
+
+
+def reuse_scenario(rng, name):
+    """C04/C05: the server withdraws a client while a query about it is unanswered and gives the
+    id to a newcomer (from the same endpoints or others); the late answer must not touch the
+    newcomer, whatever routing tags look like"""
+    mods = rng.choice(["xquery", "class"])
+    ltype = rng.choice(["login", "login", "login-ipr", "combined"])
+    services = [("login.srv", ltype)]
+    if rng.random() < 0.3:
+        services.append(("drone.srv", "dronecheck"))
+    cfg = Cfg(timeout=rng.choice([0, 0, 30]), services=services,
+              rules=[("a", [("class", "cls-a")])] if mods == "class" else [])
+    cid = rng.choice([1, 5, 7, 300, 0, -2, 2147483647])
+    addr, port = rng.choice(["10.0.0.1", "1.2.3.4", "2001:db8::1", "0::1"]), rng.choice(["4000", "1234"])
+    data = [("line", "N host.example"), ("line", "u ident"), ("line", "n nick"), ("line", "U user :real name")]
+    ev = [("C", addr, port)]
+    first = list(data)
+    rng.shuffle(first)
+    ev += first[:rng.randint(0, 4)] if ltype == "login" else first
+    ev.append(("line", "P :" + rng.choice(["+x alice pw1", "+! alice pw1", "+ alice pw1"])))
+    gone = rng.choice(["D", "T", None, "D"])
+    if gone:
+        ev.append(("line", gone))
+    same = rng.random() < 0.7
+    ev.append(("C", addr if same else rng.choice(["10.0.0.2", "0::2"]), port if same else "4001"))
+    second = list(data)
+    rng.shuffle(second)
+    k = rng.randint(0, 4)
+    ev += (second[:k] if ltype == "login" else second)
+    ev.append(("line", "P :" + rng.choice(["+x bob wrong", "+! bob wrong", "- bob wrong"])))
+    late = ("reply", rng.choice(["X", "X", "X", "x"]), "login.srv",
+            rng.choice(["OK alice", "OK alice:17", "NO you are banned", "MORE prove it", "AGAIN wait", "OK"]), "stale")
+    ev.insert(rng.randint(len(ev) - 1, len(ev)), late)
+    if ltype == "login":
+        ev += second[k:]
+    if rng.random() < 0.6:
+        ev.append(("reply", "X", "login.srv", rng.choice(["NO wrong password", "OK bob", "OK"]), "cur"))
+    if len(services) > 1:
+        ev.append(("reply", "X", "drone.srv", "OK", "cur"))
+    ev.append(("line", "H"))
+    ops = header(mods, cfg) + render_schedule(rng, {cid: ev}) + [inl("-1 ? :stats"), "eof"]
+    return Case(name, ops, tags={"mods": mods})
 
 
 def challenge_scenario(rng, name):
@@ -820,7 +913,19 @@ def gen_cases(prop, tier, seed):
     if prop == "C04":
         n = 250 if quick else 6000
         for i in range(n):
-            base = scenario(rng, "c04/%d/base" % i, mods=rng.choice(["xquery", "class"]))
+            if i % 5 == 4:
+                base = reuse_scenario(rng, "c04/%d/base" % i)
+                # the late answer is the stray line of this pair: base = the history without it
+                body0 = base.body()
+                lat = [q for q, l in enumerate(body0) if l.startswith("in ") and b"@T" in unhx(l.split(" ")[1])
+                       and b"#1|" in unhx(l.split(" ")[1])]
+                if lat:
+                    q = lat[0]
+                    cases.append(Case("c04/%d/late" % i, body0, tags={"group": "c04/%d" % i, "role": "variant", "pos": q,
+                                                                       "mods": base.tags["mods"]}))
+                    base = Case(base.name, body0[:q] + body0[q + 1:], tags=dict(base.tags))
+            else:
+                base = scenario(rng, "c04/%d/base" % i, mods=rng.choice(["xquery", "class"]))
             base.tags.update(group="c04/%d" % i, role="base")
             cases.append(base)
             body = base.body()
@@ -879,7 +984,8 @@ def gen_cases(prop, tier, seed):
                 continue
             base = scenario(rng, "c08/%d/base" % i, nclients=(rng.choice([6, 8]) if i % 4 == 0 else None))
             # chunking and junk variants are compared on the `in` stream only: no timeouts in between
-            body = [l for l in base.body() if not l.startswith("timeout ") and l != "elapse"]
+            # (symbolic routing tags are written out: the byte stream is cut at arbitrary offsets)
+            body = literal_tags([l for l in base.body() if not l.startswith("timeout ") and l != "elapse"])
             base = Case(base.name, body, tags=dict(base.tags, group="c08/%d" % i, role="base"))
             cases.append(base)
             hl = header_len(base) - 1
@@ -963,6 +1069,8 @@ def gen_cases(prop, tier, seed):
             cases.append(noisy_scenario(rng, "noisy/%d" % i))
         elif prop in ("C02", "C03", "C05", "C01", "C10") and i % 5 == 2:
             cases.append(challenge_scenario(rng, "chl/%d" % i))
+        elif prop in ("C01", "C02", "C04", "C05", "C10") and i % 10 == 6:
+            cases.append(reuse_scenario(rng, "reuse/%d" % i))
         elif prop in ("C01", "C02", "C03", "C05", "C09", "C10") and i % 10 == 3:
             # rule tables with trust_username against '~' idents: the class module calls back into
             # the core from inside iauth_accept (seeded change C01-2)
